@@ -41,7 +41,20 @@ func (fr *Frame) specCtx(st, old *State, b *ssa.BasicBlock, idx int) *SpecCtx {
 		}
 		ctx.env[name] = fr.val(p)
 	}
+	for k, v := range fr.letVals {
+		ctx.env[k] = v
+	}
 	return ctx
+}
+
+func (c *SpecCtx) paramNames() map[string]bool {
+	m := map[string]bool{}
+	if c.fr != nil {
+		for _, p := range c.fr.fn.Params {
+			m[p.Name()] = true
+		}
+	}
+	return m
 }
 
 func (c *SpecCtx) state() *State {
@@ -299,6 +312,14 @@ func (c *SpecCtx) binary(e *EBin) (Term, error) {
 
 func (c *SpecCtx) ident(name string) (Term, error) {
 	vc := c.vc
+	if c.fr != nil && c.block != nil && !c.inOld {
+		// at a program point inside the body a parameter name denotes the variable's current value
+		if _, isParam := c.paramNames()[name]; isParam {
+			if t, ok := c.fr.resolveLocal(name, c.block, c.idx, c.state()); ok {
+				return t, nil
+			}
+		}
+	}
 	if t, ok := c.env[name]; ok {
 		return t, nil
 	}
@@ -814,8 +835,56 @@ func (c *SpecCtx) call(e *ECall) (Term, error) {
 		}
 		return Term{fmt.Sprintf("(dyntype %s)", x.S), "Int", nil}, nil
 	case "typeid":
-		// typeid(pkg.Type) / typeid(*pkg.Type)
-		return Term{}, fmt.Errorf("typeid: use istype")
+		// typeid(pkg.Type): the dynamic-type tag of a concrete (non-pointer) named type; typeidp for *T
+		t := c.typeArg(e.Args[0])
+		if t == nil {
+			return Term{}, fmt.Errorf("typeid: unknown type %s", exprString(e.Args[0]))
+		}
+		return Term{vc.tid(t), "Int", nil}, nil
+	case "typeidp":
+		t := c.typeArg(e.Args[0])
+		if t == nil {
+			return Term{}, fmt.Errorf("typeidp: unknown type %s", exprString(e.Args[0]))
+		}
+		return Term{vc.tid(types.NewPointer(t)), "Int", nil}, nil
+	case "unbox":
+		// unbox(x, pkg.Type): the value of concrete type T stored in interface value x
+		if len(e.Args) != 2 {
+			return Term{}, fmt.Errorf("unbox(x, T)")
+		}
+		x, err := c.eval(e.Args[0])
+		if err != nil {
+			return Term{}, err
+		}
+		t := c.typeArg(e.Args[1])
+		if t == nil {
+			return Term{}, fmt.Errorf("unbox: unknown type %s", exprString(e.Args[1]))
+		}
+		_, unbox := vc.boxFns(t)
+		return Term{fmt.Sprintf("(%s %s)", unbox, x.S), vc.sortOf(t), t}, nil
+	case "unboxp":
+		x, err := c.eval(e.Args[0])
+		if err != nil {
+			return Term{}, err
+		}
+		t := c.typeArg(e.Args[1])
+		if t == nil {
+			return Term{}, fmt.Errorf("unboxp: unknown type %s", exprString(e.Args[1]))
+		}
+		pt := types.NewPointer(t)
+		_, unbox := vc.boxFns(pt)
+		return Term{fmt.Sprintf("(%s %s)", unbox, x.S), "Int", pt}, nil
+	case "box":
+		// box(x): the interface value holding x (x must carry a Go type)
+		x, err := c.eval(e.Args[0])
+		if err != nil {
+			return Term{}, err
+		}
+		if x.T == nil {
+			return Term{}, fmt.Errorf("box of untyped term")
+		}
+		box, _ := vc.boxFns(x.T)
+		return Term{fmt.Sprintf("(%s %s)", box, x.S), "Int", nil}, nil
 	}
 	if strings.HasPrefix(e.Fun, "istype_") || e.Fun == "istype" {
 		return Term{}, fmt.Errorf("istype unsupported here")
@@ -850,6 +919,15 @@ func (c *SpecCtx) convertInt(x Term, t types.Type, tw int, ts bool) (Term, error
 	default:
 		return Term{c.extend(x, tw-fw), sort, t}, nil
 	}
+}
+
+// typeArg resolves a type written in a spec (pkg.Name or Name of the contract's package).
+func (c *SpecCtx) typeArg(e Expr) types.Type {
+	name := exprName(e)
+	if name == "" {
+		return nil
+	}
+	return c.vc.lookupType(c.pkg, name)
 }
 
 // resolveLocal finds the SSA value bound to a source-level local name at a program point.
